@@ -26,6 +26,10 @@ def run(ctx):
                      names=["hexagon_doubled"])
     ss += S.generate(ctx, 2 if ctx.quick else 8, 100 if ctx.quick else 300, max_e=7, max_loops=3, routings_per_graph=1, kinds=("uniform",),
                      names=["bubble_chain3"])
+    # two-point functions: the externals are the end points of one propagator (a single remaining edge can still be
+    # mass-momentum spanning); small graphs, many sectors
+    ss += S.generate(ctx, 6 if ctx.quick else 30, 10 if ctx.quick else 30, max_e=5, max_loops=3, routings_per_graph=1, kinds=("uniform",),
+                     names=["bubble", "triangle", "sunrise", "box", "bubble_leg", "kite"], ext_modes=["edge"])
     rng = ctx.rng
     # rare sectors: push edge-choice coordinates to the ends of [0,1)
     for s in list(ss[:: 3]):
